@@ -157,7 +157,7 @@ var (
 	vocabIPs      = []string{"127.0.0.1", "10.0.0.1", "[::1]", "[2001:db8::1]", "127.0.0.2"}
 	vocabWildBase = []string{"example.com", "foo.example.com", "example.com.", "example.org", "ample.com", "xn--xample-9ua.com"}
 	vocabPSL      = []string{"com", "github.io", "co.uk", "localhost"} // need TolPSL
-	vocabSchemes  = []string{"https", "https", "https", "http", "http", "connector", "a+b-c.d", "wss", "ws", "ftp", "h2"}
+	vocabSchemes  = []string{"https", "https", "https", "https", "http", "http", "connector", "a+b-c.d", "wss", "ws", "ftp", "h2", scheme64, scheme64[:63]}
 	vocabPorts    = []string{"", "", "", "", ":1", ":8080", ":65535", ":*", ":*", ":8443", ":443", ":80", ":21"}
 	vocabMethods  = []string{"GET", "POST", "HEAD", "PUT", "put", "DELETE", "delete", "PATCH", "patch", "OPTIONS", "PURGE", "QUERY", "Foo"}
 	vocabReqHdrs  = []string{"Authorization", "authorization", "AUTHORIZATION", "Content-Type", "X-Foo", "x-bar", "X-Baz-Qux", "Accept", "Cache-Control", "x-a", "X-Requested-With", "X-Foo-Bar", "x-fo"}
@@ -165,6 +165,9 @@ var (
 	vocabMaxAge   = []int{0, 0, -1, 1, 5, 600, 86400}
 	vocabStatus   = []int{0, 0, 200, 204, 299, 201}
 )
+
+// a scheme of exactly 64 bytes (the documented maximum)
+var scheme64 = "s" + strings.Repeat("c", 61) + "-z"
 
 // a 253-byte domain (the documented maximum): 3 labels of 63 bytes + one of 61
 var longHost253 = strings.Repeat("a", 63) + "." + strings.Repeat("b", 63) + "." + strings.Repeat("c", 63) + "." + strings.Repeat("d", 57) + ".com"
